@@ -6,7 +6,12 @@ SD=$(readlink -f "$1"); NAME=$2
 WT=/tmp/seedverify/$NAME
 OUT=/tmp/seedverify/$NAME.result
 rm -rf "$WT"; mkdir -p /tmp/seedverify
-git -C /repo worktree add --detach "$WT" HEAD >/dev/null 2>&1 || { echo "worktree failed" > "$OUT"; exit 3; }
+ok=0
+for try in 1 2 3 4 5 6; do
+  if git -C /repo worktree add --detach "$WT" HEAD >/dev/null 2>&1; then ok=1; break; fi
+  git -C /repo worktree prune >/dev/null 2>&1; rm -rf "$WT"; sleep 7
+done
+[ $ok = 1 ] || { echo "worktree failed" > "$OUT.failed"; exit 3; }
 cd "$WT"
 export PYTHONPATH="$WT/src"
 {
